@@ -135,6 +135,9 @@ type G struct {
 	scopes  []*fnScope
 	nameSeq int
 	Classes map[string]bool // compile-context classes emitted (evidence)
+	// SayCond: the session defines tsay = (b) -> { write("?") ; b }; loop conditions may go through it,
+	// so that how often a condition is evaluated shows in the output
+	SayCond bool
 }
 
 func New(r *core.Rng, o Opts) *G {
@@ -650,6 +653,10 @@ func (g *G) countedLoop(depth int, body func() []ast.Node) []ast.Node {
 		cond = ast.Unary{Op: "!", X: ast.Binary{Op: ">=", L: ast.Name{N: i}, R: ast.IntLit{V: int64(k)}}}
 		g.cls("cond:negated")
 	}
+	if g.SayCond && g.O.Writes && !g.O.Purity && r.Chance(1, 3) {
+		cond = ast.Call{Fn: "tsay", Args: []ast.Node{cond}}
+		g.cls("cond:observable")
+	}
 	var b ast.Node = ast.Block{Stmts: bs}
 	if len(bs) == 1 {
 		b = bs[0]
@@ -1078,7 +1085,38 @@ func (g *G) tailStmt(ret Ty, depth int) ast.Node {
 	}
 	s := g.cur()
 	inFn := s != nil
-	switch r.Pick(10, 5, 3, 3, 2) {
+	switch r.Pick(10, 5, 3, 3, 2, 3) {
+	case 5:
+		// a loop in tail position: its value is the value of the last statement of its last iteration, and
+		// that statement is itself compound (if/else, a for loop, a nested loop of the same kind)
+		g.cls("tail:loop")
+		i := g.FreshName()
+		g.declare(i, Int, true)
+		k := r.Range(1, max(1, g.O.LoopBound))
+		m := g.mark()
+		var last ast.Node
+		switch r.Intn(3) {
+		case 0:
+			last = ast.If{Cond: g.Expr(Bool, depth-1), Then: g.tailBody(ret, depth-1), Else: g.tailBody(ret, depth-1)}
+		case 1:
+			v := g.FreshName()
+			last = ast.For{Vars: []string{v}, Iters: []ast.Node{ast.Call{Fn: "fromto", Args: []ast.Node{ast.IntLit{V: 0}, ast.IntLit{V: int64(r.Range(1, 3))}}}}, Body: g.Expr(ret, depth-1)}
+		default:
+			last = g.tailBody(ret, depth-1)
+		}
+		g.restore(m)
+		body := []ast.Node{ast.Assign{Name: i, Value: ast.Binary{Op: "+", L: ast.Name{N: i}, R: ast.IntLit{V: 1}}}}
+		if r.Chance(1, 3) {
+			body = appendStmt(body, g.scopedStmt(depth-1))
+		}
+		if b, ok := last.(ast.Block); ok {
+			for _, st := range b.Stmts {
+				body = appendStmt(body, st)
+			}
+		} else {
+			body = appendStmt(body, last)
+		}
+		return multi{[]ast.Node{ast.Assign{Name: i, Value: ast.IntLit{V: 0}}, ast.While{Cond: ast.Binary{Op: "<", L: ast.Name{N: i}, R: ast.IntLit{V: int64(k)}}, Body: ast.Block{Stmts: body}}}}
 	case 0:
 		g.cls("tail:expr")
 		return g.Expr(ret, depth-1)
@@ -1416,6 +1454,10 @@ func (g *G) Helpers() []ast.Node {
 			ast.Name{N: "r"}}}}},
 	}
 	g.Globals = append(g.Globals, Var{Name: "tclob", T: FunOf(Int, Int)}, Var{Name: "tloop", T: FunOf(Int, Int)})
+	if g.O.Writes && !g.O.Purity {
+		defs = append(defs, ast.Assign{Name: "tsay", Value: ast.FuncLit{Params: []string{"b"}, Body: ast.Block{Stmts: []ast.Node{ast.Call{Fn: "write", Args: []ast.Node{ast.StrLit{V: "?"}}}, ast.Name{N: "b"}}}}})
+		g.SayCond = true
+	}
 	if g.R.Chance(1, 3) {
 		// a built-in name rebound to an ordinary function that uses the temp register: a call through that
 		// name is a call like any other (the session does not use the real built-in)
